@@ -40,6 +40,42 @@ ANCHORS = [
 ]
 
 
+EXPECTED_REASON = {
+    "undefined-type": ["does not exist", "unknown", "not found", "is not a scalar, an enum or an inputobject", "keyerror"],
+    "non-input-type": ["not a scalar, an enum or an inputobject"],
+    "interface-field-missing": ["is missing"],
+    "interface-field-type": ["should be of type"],
+    "interface-argument-missing": ["missing interface field argument", "is missing", "argument"],
+    "interface-argument-type": ["argument"],
+    "interface-extra-required-argument": ["isn't required in interface field", "nonnullable"],
+    "implements-non-interface": ["not an interface", "does not exist"],
+    "missing-query-root": ["missing query type"],
+    "undefined-root": ["missing query type", "missing mutation type", "missing subscription type", "keyerror"],
+    "empty-object": ["has no fields"],
+    "union-contains-itself": ["union"],
+    "duplicate-enum-value": ["not unique", "already"],
+    "duplicate-type": ["redefin", "already", "duplicate"],
+    "duplicate-directive": ["redefin", "already", "duplicate"],
+    "scalar-without-implementation": ["implementation", "missing"],
+    "extend-unknown-target": ["extend", "unknown", "undefined", "doesn't exist", "not defined"],
+    "extend-wrong-kind": ["extend", "expected"],
+    "extend-duplicate-member": ["already", "cause", "not unique"],
+    "extend-schema-twice": ["multiple times", "already"],
+    "directive-hook-not-awaitable": ["not awaitable", "async generator"],
+}
+
+
+def post_check(counters, distinct):
+    """Supervisor hook: a clause whose rewrites were ALWAYS refused for some other reason was not exercised."""
+    out = []
+    for rule in EXPECTED_REASON:
+        n = counters.get("rule:" + rule, 0)
+        other = counters.get("refused-for-another-reason:" + rule, 0)
+        if n and other == n:
+            out.append("every '%s' rewrite was refused for another reason than the targeted clause (%d of %d)" % (rule, other, n))
+    return out
+
+
 def replace_named(t, new):
     if t[0] == "N":
         return N(new)
@@ -165,6 +201,20 @@ class Rewrites:
                     a.type, a.default = replace_named(a.type, other), NODEF
                 add("interface-argument-type", "%s.%s(%s) retyped to %s" % (on, fn, a0.name, other), mut)
 
+            for a0 in ifield.args[:2]:
+                # same depth and inner type, other wrapper kind: [X] <-> X!
+                base = a0.type
+                swapped = None
+                if base[0] == "L":
+                    swapped = NN(base[1]) if base[1][0] != "NN" else None
+                elif base[0] == "NN" and base[1][0] != "L":
+                    swapped = L(base[1])
+                if swapped is not None:
+                    def mut(m, on=on, fn=fn, an=a0.name, swapped=swapped):
+                        a = m.types[on].fields[fn].arg(an)
+                        a.type, a.default = swapped, NODEF
+                    add("interface-argument-type", "%s.%s(%s): %s where %s says %s" % (on, fn, a0.name, tstr(swapped), iname, tstr(base)), mut)
+
             def mut(m, on=on, fn=fn):
                 m.types[on].fields[fn].args.append(Arg("extraRequired_", NN(N("Int"))))
             add("interface-extra-required-argument", "%s.%s gets a required argument %s.%s does not have" % (on, fn, iname, fn), mut)
@@ -213,6 +263,11 @@ class Rewrites:
                 m.types[on].fields.clear()
             add("empty-object", "type %s without fields" % o.name, mut)
         add("empty-object", "new type without fields", extra=["type EmptyObject_"])
+        for rootname, label in ((s.query, "query"), (s.mutation, "mutation"), (s.subscription, "subscription")):
+            if rootname and not s.types[rootname].interfaces:
+                def mut(m, rn=rootname):
+                    m.types[rn].fields.clear()
+                add("empty-object", "%s root type %s without fields" % (label, rootname), mut)
         for u in self.pick(of_kind(s, "UNION")):
             def mut(m, un=u.name):
                 m.types[un].members.append(un)
@@ -421,6 +476,16 @@ async def run_case(ctx, rng, index):
             except Exception as e:  # noqa
                 st.inc("refused")
                 st.distinct("refusal_exception_types", type(e).__name__)
+                # audit: was it refused for the intended reason?  (a rewrite that trips another rule first - e.g. a syntax
+                # error - would not exercise the clause it targets)
+                msg = (type(e).__name__ + " " + str(getattr(e, "message", e))).lower()
+                want = EXPECTED_REASON.get(r["rule"])
+                if want and not any(w in msg for w in want):
+                    st.inc("refused-for-another-reason:" + r["rule"])
+                    if os.environ.get("VERIF_C12_AUDIT"):
+                        print("AUDIT", r["rule"], "|", r["site"], "|", msg[:200])
+                else:
+                    st.inc("refused-for-intended-reason")
                 st.distinct("nontrivial", (case["sdl"], r["rule"], r["site"]))
                 if len(st.samples) < 3 and k % 7 == 0:
                     st.sample({"rule": r["rule"], "site": r["site"], "exception": repr(e)[:200]})
